@@ -49,14 +49,21 @@ def run(ctx, build):
             hist['dims'][key] = hist['dims'].get(key, 0) + 1
             with h5py.File(h5path, 'w') as f:
                 main = gen.write_layout(f, lay)
+                # the wrapper's view (file order / sorted by rate, also reached by toggling) must not influence the table
+                view = ('file_order', 'sorted', 'toggled_to_sorted', 'toggled_twice')[li % 4]
                 with common.quiet():
-                    u = usid.USIDataset(main)
+                    u = usid.USIDataset(main, sort_dims=(view == 'sorted'))
+                    if view.startswith('toggled'):
+                        u.toggle_sorting()
+                    if view == 'toggled_twice':
+                        u.toggle_sorting()
+                hist['view_' + view] = hist.get('view_' + view, 0) + 1
                 k, q = len(lay.pos_sizes), len(lay.spec_sizes)
                 explicit = li % 2 == 0
                 target = os.path.join(outdir, 'table.csv') if explicit else None
                 hist['explicit_path' if explicit else 'default_path'] += 1
                 before = listing()
-                desc = {'layout': lay.describe(), 'output_path': 'explicit' if explicit else 'default'}
+                desc = {'layout': lay.describe(), 'output_path': 'explicit' if explicit else 'default', 'wrapper_view': view}
                 try:
                     with common.quiet():
                         ret = u.to_csv(output_path=target)
@@ -80,8 +87,14 @@ def run(ctx, build):
                         ids[text] = len(texts) + 1
                         texts.append(text)
                     return ids[text]
-                sdescs = [cid(str(x)) for x in u.spec_dim_descriptors]
-                pdescs = [cid(str(x)) for x in u.pos_dim_descriptors]
+                # descriptors straight from the file, in stored order: 'label (unit)' of the row / column they stand beside
+                def descs(h5_anc):
+                    dec = lambda x: x.decode() if isinstance(x, bytes) else str(x)
+                    return ['%s (%s)' % (dec(l), dec(un)) for l, un in zip(h5_anc.attrs['labels'], h5_anc.attrs['units'])]
+                spec_descs = descs(main.file[main.attrs['Spectroscopic_Values']])
+                pos_descs = descs(main.file[main.attrs['Position_Values']])
+                sdescs = [cid(x) for x in spec_descs]
+                pdescs = [cid(x) for x in pos_descs]
                 svals = [[cid(str(x)) for x in row] for row in spec_vals]
                 pvals = [[cid(str(x)) for x in row] for row in pos_vals]
                 mvals = [[cid('%.18e' % x) for x in row] for row in data]
@@ -97,12 +110,12 @@ def run(ctx, build):
                     mode = 'table_shape_wrong'
                 else:
                     for i in range(q):
-                        if table[i][k - 1] != str(u.spec_dim_descriptors[i]) or any(c != '' for c in table[i][:k - 1]):
+                        if table[i][k - 1] != spec_descs[i] or any(c != '' for c in table[i][:k - 1]):
                             mode = 'header_descriptor_misplaced'
                         for c in range(lay.M):
                             if float(table[i][k + c]) != float(spec_vals[i][c]):
                                 mode = 'header_value_not_above_its_column'
-                    if table[q][:k] != [str(x) for x in u.pos_dim_descriptors]:
+                    if table[q][:k] != pos_descs:
                         mode = mode or 'position_descriptors_misplaced'
                     for r in range(lay.N):
                         for dd in range(k):
